@@ -391,11 +391,17 @@ def main(casedir):
                     mesh.calculateRZ()
 
                     def ends():
+                        # region ends: X-point joins and targets (not the outer faces of the
+                        # boundary guard cells, whose size follows the target spacing)
+                        g = int(mesh.user_options.y_boundary_guards)
                         out = {}
                         for rid, reg in mesh.regions.items():
+                            kind = reg.equilibriumRegion.kind
+                            lo = g if (kind.startswith("wall") and reg.connections["lower"] is None) else 0
+                            hi = -1 - g if (kind.endswith("wall") and reg.connections["upper"] is None) else -1
                             out[rid] = [numpy.array(a, copy=True) for a in (
-                                reg.Rxy.ylow[:, 0], reg.Zxy.ylow[:, 0], reg.Rxy.ylow[:, -1], reg.Zxy.ylow[:, -1],
-                                reg.Rxy.corners[:, 0], reg.Zxy.corners[:, 0], reg.Rxy.corners[:, -1], reg.Zxy.corners[:, -1])]
+                                reg.Rxy.ylow[:, lo], reg.Zxy.ylow[:, lo], reg.Rxy.ylow[:, hi], reg.Zxy.ylow[:, hi],
+                                reg.Rxy.corners[:, lo], reg.Zxy.corners[:, lo], reg.Rxy.corners[:, hi], reg.Zxy.corners[:, hi])]
                         return out
 
                     moved = []
